@@ -114,13 +114,19 @@ def make_scratch(mutant):
     return root
 
 
+def _limit_memory():
+    import resource
+    resource.setrlimit(resource.RLIMIT_AS, (4 << 30, 4 << 30))
+
+
 def run_tests(root):
     env = dict(os.environ, PYTHONPATH=root, PYTHONDONTWRITEBYTECODE="1")
     out = subprocess.run(
         [sys.executable, "-m", "pytest", "-q", "-p", "no:cacheprovider",
-         "--timeout=900", "--color=no",
+         "--timeout=60", "--color=no",
          "--deselect", "metomi/isodatetime/tests/test_main.py::test_pipe"],
-        cwd=root, env=env, capture_output=True, text=True, timeout=1800)
+        cwd=root, env=env, capture_output=True, text=True, timeout=1800,
+        preexec_fn=_limit_memory)
     tail = [ln for ln in out.stdout.strip().splitlines()
             if " passed" in ln or " failed" in ln or " error" in ln][-1:] or [
         out.stdout.strip()[-80:]]
